@@ -17,8 +17,9 @@ Rule(o) ==
       [] o.kind = "call-result"                      -> {Verdict(InitOK(n.used_as, n.ret))}
       [] o.kind \in {"return", "return-method"}      -> {Verdict(ReturnOK(n.declared, n.actual))}
       [] o.kind \in {"init", "field-init"}           -> {Verdict(InitOK(n.declared, n.actual))}
+      [] o.kind \in {"tuple-arg", "tuple-init"}      -> {Verdict(\A j \in 1..Len(n.declared) : Sub(n.declared[j], n.actual[j]))}
       [] o.kind \in {"null-init", "null-assign", "null-field", "null-arg", "null-ctor-arg", "null-return"}
-                                                     -> {Verdict(SubN(NT(n.T, n.target_nullable), NullSrcType(n.T, n.source)))}
+                                                     -> {Verdict(SubN(NT(n.target, n.target_nullable), NullSrcType(n.T, n.source)))}
       [] o.kind = "null-use"                         -> {Verdict(n.source \in {"value", "defaulted"})}
       [] o.kind = "fin-loopvar"                      -> {"accept", "reject"}
       [] o.kind \in {"fin-var", "fin-undefined", "fin-param", "fin-member", "fin-shadow"}
